@@ -293,7 +293,7 @@ func (m *Machine) truth(v value) bool {
 	case *Sym:
 		return m.decide(b.T)
 	}
-	panic(fmt.Sprintf("truth: not a bool: %T", v))
+	panic(fmt.Sprintf("symgo: internal: truth: not a bool: %T", v))
 }
 
 // choose is a nondeterministic choice in [0,n): all alternatives are explored.
@@ -398,7 +398,7 @@ func (m *Machine) assume(v value) {
 		m.learn(c, true)
 		return
 	}
-	panic(fmt.Sprintf("vAssume: not a bool: %T", v))
+	panic(fmt.Sprintf("symgo: internal: vAssume: not a bool: %T", v))
 }
 
 func (m *Machine) inputVars() []*Term {
@@ -447,7 +447,7 @@ func (m *Machine) assertV(v value, label string) {
 	case bool:
 		if d, ok := m.replayDec('s'); ok {
 			_ = d
-			if !b {
+			if !b && !isFindingLabel(label) {
 				m.abort("stop") // the violating path ended here the first time as well
 			}
 			return
@@ -461,6 +461,9 @@ func (m *Machine) assertV(v value, label string) {
 		}
 		m.out = append(m.out, Dec{Kind: 's', Val: 0, Forced: true})
 		m.addViolation("assert", label, "assertion is false on every input of this path", nil)
+		if isFindingLabel(label) {
+			return // region of a recorded finding: keep checking the rest of the path
+		}
 		m.abort("stop")
 	case *Sym:
 		c := b.T
@@ -498,7 +501,7 @@ func (m *Machine) assertV(v value, label string) {
 		m.S.Assert(c)
 		m.learn(c, true)
 	default:
-		panic(fmt.Sprintf("vAssert: not a bool: %T", v))
+		panic(fmt.Sprintf("symgo: internal: vAssert: not a bool: %T", v))
 	}
 }
 
@@ -674,4 +677,17 @@ func (m *Machine) findMethod(t types.Type, name string) *ssa.Function {
 		}
 	}
 	return nil
+}
+
+// isFindingLabel: assertion labels of the form "F<digits>:..." mark the region of a recorded
+// finding; a failure there does not end the path (native replay behaves the same way).
+func isFindingLabel(l string) bool {
+	if len(l) < 3 || l[0] != 'F' {
+		return false
+	}
+	i := 1
+	for i < len(l) && l[i] >= '0' && l[i] <= '9' {
+		i++
+	}
+	return i > 1 && i < len(l) && l[i] == ':'
 }
